@@ -175,6 +175,9 @@ func runStreamSets(family string, ops []ssop, prog []step) (fail, clause, key st
 			if p := lib.Catch(func() { res = op.apply(live[s.r], a) }); p != "" {
 				return fmt.Sprintf("%s: %s", ps(si+1), p), "panic|" + op.name, ""
 			}
+			if op.arity == 1 && s.a != s.r && res.ID() == a.ID() && live[s.r].ID() != a.ID() {
+				return fmt.Sprintf("%s returned its argument itself (not a stream set of its own)", ps(si+1)), "result-is-the-argument|" + op.name, ""
+			}
 			var mp *map[string][]int
 			for i, l := range live {
 				if l.ID() == res.ID() {
